@@ -314,6 +314,8 @@ class ForceMatrix:
                 if np.any([x < 0 for x in xres]) and not kwargs.get("allow_negatives", True):
                     raise ValueError("Negative values detected")
         except (ValueError, np.linalg.LinAlgError, TypeError) as e:
+            # a back-end that fails part-way (lmfit) leaves numpy's error state at 'ignore'
+            np.seterr(all='raise')
             warnings.warn(f"Numerically solving due to the following error: {e}")
             xres, _ = scop.nnls(mprime, b, maxiter=kwargs.get("nnls_max_iter"))
 
